@@ -27,8 +27,8 @@ MANIFEST = dict(
          "VCF/BAM pairs and comparing every output record with the input and with the model's tags",
     design_ref="DESIGN.md §5 C10",
     note="proof of the decision rule and of conservation on the stream model; htslib/pysam record I/O and allele detection "
-         "(C06) are trusted/differential; F12 (--regions writes alignments once per overlapping region, in region order, or "
-         "fails on unsorted/overlapping regions) is reported until fixes/F12.patch is applied",
+         "(C06) are trusted/differential; F17 (--regions writes alignments once per overlapping region, in region order, or "
+         "fails on unsorted/overlapping regions) is reported until fixes/F17.patch is applied",
     technique="Lean 4 proof (invariant of the accumulation loop = spec sums; permutation lemmas) + differential CLI runs",
 )
 ASSUMPTIONS = [
@@ -41,6 +41,7 @@ ASSUMPTIONS = [
 ]
 
 THREE = ("HP", "PS", "PC")
+MODES = ("detected", "truth", "truth_orig")
 
 
 # ------------------------------------------------------------------------------------------------
@@ -105,7 +106,7 @@ def overlaps(rec, region):
 
 
 def multi_region(case):
-    """several regions on one contig, or contigs not in BAM order (the situations of F12)"""
+    """several regions on one contig, or contigs not in BAM order (the situations of F17)"""
     from harness.gen.c10_gen import parse_region
     regs = case["opts"].get("regions")
     if not regs:
@@ -138,7 +139,7 @@ def sample_variants(case, sample, chrom, regions):
     ph = case["phasing"][sample][chrom]
     out = []
     for i, v in enumerate(case["variants"][chrom]):
-        if ph["ps"][i] is None:
+        if ph["ps"][i] is None or len({ph["haps"][h][i] for h in range(case["ploidy"])}) == 1:
             continue
         if regions is not None and not any((v["pos"] + len(v["ref"]) > s) and (e is None or v["pos"] < e) for s, e in regions):
             continue
@@ -348,8 +349,8 @@ def run_case(ctx, case, d):
             alns_req = [[expected[k]["name"], bool(expected[k]["flag"] & 4), bool(expected[k]["flag"] & 256), bool(expected[k]["flag"] & 2048),
                          expected[k]["start"], expected[k]["bx"]] for k in idx_exp]
             reqs = {}
-            reads_by_name = {"detected": {}, "truth": {}}
-            for mode in ("detected", "truth"):
+            reads_by_name = {"detected": {}, "truth": {}, "truth_orig": {}}
+            for mode in MODES:
                 samples_req = []
                 for s in used:
                     idxs = sample_variants(case, s, chrom, regs)
@@ -359,7 +360,7 @@ def run_case(ctx, case, d):
                         final[("reads", "detected", chrom, s)] = reads
                     else:
                         order, groups, bx = truth_groups(case, inrecs, truth_of, s, chrom, idxs, regs)
-                        ans = ctx.model.ask("c10.group", threshold=100000, groups=[groups[n] for n in order])
+                        ans = ctx.model.ask("c10.group", threshold=100000, repaired=(mode == "truth"), groups=[groups[n] for n in order])
                         got = {n: a for n, a in zip(order, ans) if a is not None}
                         det_order = [r[0] for r in final[("reads", "detected", chrom, s)]]
                         names_sorted = [n for n in det_order if n in got] + sorted((n for n in got if n not in det_order), key=lambda n: (got[n][1][0][0] if got[n][1] else 0, n))
@@ -369,7 +370,8 @@ def run_case(ctx, case, d):
                     samples_req.append({"phase": info, "reads": reads})
                 reqs[mode] = dict(op="c10.chrom", ploidy=case["ploidy"], cutoff=(o.get("linked_read_distance_cutoff") if o.get("linked_read_distance_cutoff") is not None else 50000),
                                   ignoreLinked=bool(o.get("ignore_linked_read")), tagSupp=bool(o.get("tag_supplementary")), samples=samples_req, alns=alns_req)
-            ans = ctx.model.ask_many([reqs["detected"], reqs["truth"]])
+            ans = ctx.model.ask_many([reqs[m] for m in MODES])
+            orig_tags = ans[2].get("tags")
             adm_by_name, adm_by_bx = {}, {}
             bx_of = {expected[k]["name"]: expected[k]["bx"] for k in idx_exp}
             for a in ans:
@@ -382,11 +384,11 @@ def run_case(ctx, case, d):
                             if bx_of.get(n_) is not None:
                                 adm_by_bx.setdefault(bx_of[n_], {(None, None, None)}).update((t[0], None, t[2]) for t in tg)
             linked_on = o.get("linked_read_distance_cutoff") is not None and not o.get("ignore_linked_read")
-            for mode, a in zip(("detected", "truth"), ans):
+            for mode, a in zip(MODES[:2], ans):
                 if "error" in a and a.get("tags") is None:
                     ctx.disagree("c10.chrom", {"case": slim, "request": reqs[mode]}, "implementation succeeded", a)
                     continue
-                for k, mt in zip(idx_exp, a["tags"]):
+                for pos_, (k, mt) in enumerate(zip(idx_exp, a["tags"])):
                     rec = cur[k]
                     impl = list(rec["tagvals"])
                     if impl == mt:
@@ -403,8 +405,13 @@ def run_case(ctx, case, d):
                     else:
                         # the alleles the generator put into the read give another decision than the ones whatshap saw
                         det = reads_by_name["detected"].get(rec["name"]); tru = reads_by_name["truth"].get(rec["name"])
-                        ctx.fail("tag does not follow from the alleles the read carries (ground truth): " + what +
-                                 f"; detected read {det[2] if det else None}, true read {tru[2] if tru else None}", slim, key="truth-alleles")
+                        if orig_tags is not None and orig_tags[pos_] == impl:
+                            ctx.fail("paired-end read: the alleles of the mate on the other strand are ignored (defect F12, create_read_from_group): "
+                                     + what + f"; read as assembled by whatshap {det[2] if det else None}, both mates {tru[2] if tru else None}",
+                                     slim, key="paired-mate-dropped")
+                        else:
+                            ctx.fail("tag does not follow from the alleles the read carries (ground truth): " + what +
+                                     f"; detected read {det[2] if det else None}, true read {tru[2] if tru else None}", slim, key="truth-alleles")
             # ---- property predicate, independent of the model
             for k in idx_exp:
                 rec = cur[k]
@@ -438,8 +445,13 @@ def run_case(ctx, case, d):
                             nontrivial["multi"] += 1
                         msg = check_rule(case["ploidy"], info, rvs, hp, pc, ps)
                     if msg:
+                        key = "best-agreeing" if mode == "detected" else "truth-alleles"
+                        if mode == "truth":
+                            ent0 = reads_by_name["truth_orig"].get(rec["name"])
+                            if ent0 is not None and check_rule(case["ploidy"], ent0[1], ent0[2], hp, pc, ps) is None:
+                                key = "paired-mate-dropped"
                         ctx.fail(f"{'exchanged VCF, ' if swapped else ''}{chrom} {rec['name']} tagged HP={hp} PC={pc} PS={ps} but ({mode} alleles) {msg}",
-                                 slim, key="best-agreeing" if mode == "detected" else "truth-alleles")
+                                 slim, key=key)
         final[("amb", swapped)] = ambiguous_names
 
     # ---- symmetry
@@ -474,7 +486,7 @@ def run_case(ctx, case, d):
     if lines != exp_lines:
         bad = [(a, b) for a, b in zip(lines, exp_lines) if a != b]
         if len(lines) == len(exp_lines) and all(a[1] == "none" and b[1] == "none" and a[0] == b[0] and a[3] == b[3] for a, b in bad):
-            # F13: the loop variable of the read-cloud search leaks into the list
+            # F18: the loop variable of the read-cloud search leaks into the list
             ctx.fail(f"--output-haplotag-list names a phase set for an untagged read: {bad[0][0]} (alignment has no PS tag)", slim,
                      key="haplotag-list-phaseset-of-untagged")
         else:
